@@ -28,10 +28,11 @@ const (
 	fkEOF
 	fkCtxErr
 	fkAbort
+	fkPanicMulti
 	fkNumKinds
 )
 
-var fkNames = []string{"none", "plain", "wrapped", "panic(error)", "panic(string)", "panic(struct)", "skip", "EOF", "ctxerr", "ErrCurrentOpAbort"}
+var fkNames = []string{"none", "plain", "wrapped", "panic(error)", "panic(string)", "panic(struct)", "skip", "EOF", "ctxerr", "ErrCurrentOpAbort", "panic(errors.Join)"}
 
 type c03Fault struct {
 	pos  int
@@ -76,6 +77,7 @@ func c03Run(w *W, enumerate bool) {
 	plainErr := &errSentinel{"injected-plain"}
 	panicErr := &errSentinel{"injected-panic-error"}
 	unrelated := &errSentinel{"unrelated"}
+	unrelatedInPanic := &errSentinel{"second-error-in-panic-value"}
 	var faults []c03Fault
 	for i := 0; i < nFaults; i++ {
 		if i == 0 {
@@ -139,7 +141,7 @@ func c03Run(w *W, enumerate bool) {
 			return true
 		case fkPlain, fkWrapped, fkAbort:
 			return contErr
-		case fkPanicErr, fkPanicStr, fkPanicStruct:
+		case fkPanicErr, fkPanicStr, fkPanicStruct, fkPanicMulti:
 			return contPanic
 		}
 		return false
@@ -185,6 +187,9 @@ func c03Run(w *W, enumerate bool) {
 			return context.Canceled
 		case fkAbort:
 			return ers.ErrCurrentOpAbort
+		case fkPanicMulti:
+			// the panic value is a standard multi-error
+			panic(errors.Join(panicErr, unrelatedInPanic))
 		}
 		return nil
 	}
@@ -287,7 +292,7 @@ func c03Run(w *W, enumerate bool) {
 		}
 	}
 	plainReportable := (invoked[fkPlain] || invoked[fkWrapped]) && excl != 1
-	panicked := invoked[fkPanicErr] || invoked[fkPanicStr] || invoked[fkPanicStruct]
+	panicked := invoked[fkPanicErr] || invoked[fkPanicStr] || invoked[fkPanicStruct] || invoked[fkPanicMulti]
 	ctxReportable := invoked[fkCtxErr] && inclCtx
 	cfg := fmt.Sprintf("%s[ce=%v,cp=%v,ic=%v,ex=%d]", name, contErr, contPanic, inclCtx, excl)
 	_ = cfg
@@ -307,7 +312,7 @@ func c03Run(w *W, enumerate bool) {
 	if panicked && !errors.Is(result, fun.ErrRecoveredPanic) {
 		w.Violate("error-lost", sig("error-lost", "panic"), "%s: the processing function panicked but the result does not wrap ErrRecoveredPanic; result=%v", name, result)
 	}
-	if invoked[fkPanicErr] && mustReport && !errors.Is(result, panicErr) {
+	if (invoked[fkPanicErr] || invoked[fkPanicMulti]) && mustReport && !errors.Is(result, panicErr) {
 		w.Violate("error-lost", sig("error-lost", "panic-error"), "%s: panic(err) was recovered but errors.Is(result, err) is false; result=%v", name, result)
 	}
 	if invoked[fkAbort] && mustReport && !errors.Is(result, ers.ErrCurrentOpAbort) {
@@ -332,7 +337,7 @@ func c03Run(w *W, enumerate bool) {
 		w.Violate("ctxerr-reported", sig("ctxerr-reported", ""), "%s: a context error was reported without IncludeContextExpirationErrors: %v", name, result)
 	}
 	// nil exactly when nothing reportable happened
-	reportable := (invoked[fkPlain] || invoked[fkWrapped]) && excl != 1 || invoked[fkPanicErr] || invoked[fkPanicStr] || invoked[fkPanicStruct] || invoked[fkCtxErr] && inclCtx || invoked[fkAbort]
+	reportable := (invoked[fkPlain] || invoked[fkWrapped]) && excl != 1 || invoked[fkPanicErr] || invoked[fkPanicStr] || invoked[fkPanicStruct] || invoked[fkPanicMulti] || invoked[fkCtxErr] && inclCtx || invoked[fkAbort]
 	if !reportable && result != nil && !(realCancel && inclCtx) {
 		w.Violate("spurious-error", sig("spurious-error", ""), "%s: no reportable failure occurred but the result is %v", name, result)
 	}
